@@ -44,6 +44,24 @@ def scenario(n, seq, rng, nullstyle):
     return {"meta": {"fam": "batch", "carrier": "counting", "n": n, "gcols": cols, "gout": cols, "aggs": aggs}, "sql": sql, "rows": rows}
 
 
+def fnkey_scenario(n, rng):
+    """GROUP BY a scalar function of a column: rows are batched per VALUE OF THE FUNCTION, whether the key is selected under an alias,
+    selected as it stands, or not selected at all"""
+    f = rng.choice(["upper", "lower"])
+    img = lambda x: x.upper() if f == "upper" else x.lower()
+    style = rng.choice(["alias", "bare", "absent", "absent", "bare"])
+    vals = rng.choice([["a", "A", "b", "B"], ["ab", "Ab", "aB", "cd", "CD"]])
+    rows = [{"id": i + 1, "v": rng.choice([1, 2, 3, -4, 0]), "k1": rng.choice(vals)} for i in range(rng.choice([n * 5, n * 6 + 1, 17]))]
+    aggs = [{"al": "c", "fn": "count_star", "arg": {"k": "star"}, "p": 0}, {"al": "ids", "fn": "collect", "arg": {"k": "col", "c": "id"}, "p": 0},
+            {"al": "s", "fn": "sum", "arg": {"k": "col", "c": "v"}, "p": 0}]
+    key = "%s(k1)" % f
+    selkey = {"alias": key + " AS kk, ", "bare": key + ", ", "absent": ""}[style]
+    gout = {"alias": "kk", "bare": key, "absent": ""}[style]
+    sql = "SELECT %scount(*) AS c, collect(id) AS ids, sum(v) AS s FROM stream GROUP BY %s, CountingWindow(%d)" % (selkey, key, n)
+    meta = {"fam": "batch", "carrier": "counting", "n": n, "gcols": ["k1"], "gout": [gout], "gmap": [[[x, img(x)] for x in vals]], "aggs": aggs}
+    return {"meta": meta, "sql": sql, "rows": rows, "nolayout": style == "bare", "norename": True}
+
+
 def run(tier):
     res = vlib.Result("C09", tier)
     res.cov["exhaustive"] = True
@@ -82,6 +100,8 @@ def run(tier):
         sc["sql"] += " WITH (STATETTL='1s')"
         sc.update(gap_ms=rng.choice([180, 250]) if ng == 2 else rng.choice([300, 400]), ttl_ms=1000, span=ng)
         scen.append(sc)
+    for _ in range(60 if quick else 3000):
+        scen.append(fnkey_scenario(rng.choice([2, 3]), rng))
     # bursts: the producer outruns the counting-window goroutine (held at its first row) by more rows than the window's
     # input queue holds (50 by default): every row still counts, in order
     for _ in range(8 if quick else 200):
@@ -90,6 +110,15 @@ def run(tier):
         sc = scenario(n, [rng.choice(keys) for _ in range(rng.choice([70, 90, 130]))], rng, "mix")
         sc["burst"] = True
         sc["hold"] = "cw.row"
+        scen.append(sc)
+    # bursts without a gate under each overflow strategy (buffers large enough to lose nothing): batches that fire within microseconds
+    # of each other are still delivered per key in firing order
+    for i in range(12 if quick else 300):
+        n = rng.choice([1, 2, 2, 3])
+        keys = [("k%d" % j,) for j in range(rng.choice([1, 2, 3]))]
+        sc = scenario(n, [rng.choice(keys) for _ in range(rng.choice([200, 300, 400]))], rng, "mix")
+        sc["burst"] = True
+        sc["perf"] = {"strategy": ["block", "block", "expand", "drop"][i % 4], "blockms": 5000}
         scen.append(sc)
     seqfam.run_scenarios(res, scen, "TraceBatch", tag="batch", relayout_p=0.3, retype_p=0.3, rename_p=0.3)
     res.cov["distinct_nontrivial"] = len({json.dumps(s["rows"], sort_keys=True) + s["sql"] for s in scen if len(s["rows"]) > 1})
